@@ -109,8 +109,9 @@ def generate(tier, rng):
         scalar = rng.random() < 0.6
         k = 1 if scalar else rng.choice([2, 2, 4, 6])
         vals = []
+        wide = rng.random() < 0.2
         for _ in range(k):
-            x = G.rand_scaled(rng, signed, n)
+            x = G.rand_scaled_wide(rng, f) if wide else G.rand_scaled(rng, signed, n)
             v = x / Fraction(2) ** f
             if G.in_c01_domain(n, f, v):
                 vals.append(v)
